@@ -33,3 +33,13 @@ def nonOverlapping (t : List (List String × String)) : Bool :=
   t.all fun a => t.all fun b => a.1 == b.1 || !(isSuffix a.1 b.1)
 
 end OsloPolicy.Tables
+
+namespace OsloPolicy.Tables
+/-- option defaults the models assume (`opts._options`) -/
+def optEnforceScope : Bool := true
+def optEnforceNewDefaults : Bool := true
+def optPolicyFile : String := "policy.yaml"
+def optPolicyDefaultRule : String := "default"
+def optPolicyDirs : List String := ["policy.d"]
+def optRemoteContentType : String := "application/x-www-form-urlencoded"
+end OsloPolicy.Tables
